@@ -88,6 +88,10 @@ func (t *target) run(r *runner) {
 		t.c.Broadcast()
 	}
 
+	verifRun(t.label, true)
+	defer verifRun(t.label, false)
+	verifYield("run.before-enter", t.label)
+
 	r.gate.enter()
 	defer r.gate.exit()
 
@@ -108,6 +112,7 @@ func (t *target) run(r *runner) {
 		status = statusFailed
 	}
 
+	verifYield("run.before-finish", t.label)
 	t.m.Lock()
 	defer unlock()
 	t.status, t.err = status, err
@@ -146,10 +151,13 @@ func (e *engine) EvaluateTargets(labels ...string) []Result {
 	for i, label := range labels {
 		targets[i] = e.runner.getTarget(label)
 		targets[i].start(e.runner)
+		verifYield("eval.after-start", e.root.label)
 	}
 
+	verifYield("eval.before-publish", e.root.label)
 	e.root.waiting.Swap(&targets)
 	defer e.root.waiting.Swap(nil)
+	verifYield("eval.after-publish", e.root.label)
 
 	results := make([]Result, len(targets))
 	if err := e.checkDeps(targets); err != nil {
@@ -160,7 +168,9 @@ func (e *engine) EvaluateTargets(labels ...string) []Result {
 		return results
 	}
 
+	verifYield("eval.after-check", e.root.label)
 	for i, t := range targets {
+		verifYield("eval.before-wait", e.root.label)
 		results[i].Error = t.wait()
 		results[i].Target = t.target
 	}
@@ -187,6 +197,7 @@ func (g *gate) enter() {
 		g.cond.Wait()
 	}
 	g.capacity--
+	verifGate(g, -1)
 }
 
 func (g *gate) exit() {
@@ -194,6 +205,7 @@ func (g *gate) exit() {
 	defer g.m.Unlock()
 
 	g.capacity++
+	verifGate(g, +1)
 	g.cond.Signal()
 }
 
